@@ -156,9 +156,6 @@ class Index:
                     prev()
                 return match, skipped
 
-            stop = compiled_matches[-1]
-            if since:
-                stop += since
             match, skipped = next_match()
         else:
             match = None
@@ -206,8 +203,6 @@ class Index:
                             continue
                         else:
                             break
-                    elif key < stop:
-                        break
 
                     event_id = key[-32:]
                     if event_id in events:
